@@ -31,8 +31,8 @@ Init == l = 1 /\ c = Empty /\ rc = Empty /\ sem = <<>> /\ f0 = -1 /\ viol = <<>>
    number of qubits silently returns a circuit (whose gates may address qubits that do not exist), while every `+`
    overload refuses with a panic.  Concatenation of such operands denotes no composite map, so under C15 this is a defect
    of quizx (fix: /verif/work/gB_fix_1.diff).  Until that fix is applied the unchanged tree would alarm, therefore the
-   check of `+=` is OFF and the occurrences are only counted (stats.addassign_mismatch_silent).
-   To turn it on after the fix: set CheckAddAssignMismatch == TRUE. *)
+   check of `+=` (predicate AddAssignChecked, tags pred=AddAssignChecked op=concat_mismatch) is OFF and the occurrences are
+   only counted (stats.addassign_mismatch_silent).  To turn it on after the fix: set CheckAddAssignMismatch == TRUE. *)
 CheckAddAssignMismatch == FALSE
 
 IsUnitary(cc) == \A i \in 1..Len(cc.gates) : cc.gates[i].t \notin {"InitAncilla", "PostSelect", "Measure", "MeasureReset"}
@@ -67,8 +67,7 @@ OpOK(e) ==
          \* operands on different qubit counts: no overload may hand back a circuit (the `+` family panics as documented)
          LET r == CircFromAbs(e.out.rhs) IN
          /\ ~Concatenable(c, r)
-         /\ \A f \in PlusOverloads : e.out.results[f] = "panic"
-         /\ (CheckAddAssignMismatch => e.out.results.sum_assign = "panic")
+         /\ \A f \in PlusOverloads : e.out.results[f] = "panic"      \* `+=`: predicate AddAssignChecked below (behind the switch)
     [] e.op = "push_front" ->
          LET g == GateFromAbs(e.out.g)
              o == CircFromAbs(e.out.out)
@@ -147,8 +146,11 @@ Step(e) ==
                                         !.unknown_gate_runs = @ + B(unk), !.unknown_gate_noop = @ + B(unk /\ ok /\ wf)]
               /\ UNCHANGED <<c, rc, sem, f0>>
     [] e.k = "op" ->
-         /\ viol' = IF e.res # "ok" THEN Append(viol, <<l, "NoPanic", e.op>>)
-                    ELSE IF OpOK(e) THEN viol ELSE Append(viol, <<l, "OpOK", e.op>>)
+         /\ viol' = (IF e.res # "ok" THEN <<<<l, "NoPanic", e.op>>>>
+                     ELSE IF OpOK(e) THEN <<>> ELSE <<<<l, "OpOK", e.op>>>>)
+                    \o (IF CheckAddAssignMismatch /\ e.op = "concat_mismatch" /\ e.res = "ok" /\ e.out.results.sum_assign # "panic"
+                        THEN <<<<l, "AddAssignChecked", e.op>>>> ELSE <<>>)
+                    \o viol
          /\ stats' = [stats EXCEPT !.ops = @ + 1, !.nontrivial = @ + (IF Len(c.gates) > 0 THEN 1 ELSE 0),
                                    !.addassign_mismatch_silent = @ + B(e.op = "concat_mismatch" /\ e.res = "ok" /\ e.out.results.sum_assign = "ok"),
                                    !.unknown_name_silent = @ + B(e.op = "by_name" /\ e.res = "ok" /\ e.out.unknown_kind = "UnknownGate")]
